@@ -1,5 +1,7 @@
 use vstd::prelude::*;
 use crate::error::*;
+use crate::shims::scursor::ReadCursor;
+use crate::spec::be16;
 
 //@item rodbus/src/types.rs | UnitId | structeq
 //@item rodbus/src/types.rs | AddressRange
@@ -8,6 +10,7 @@ use crate::error::*;
 //@item rodbus/src/types.rs | Indexed
 //@item rodbus/src/types.rs | BitIterator
 //@item rodbus/src/types.rs | AddressIterator
+//@item rodbus/src/types.rs | RegisterIterator
 
 // ---- specification vocabulary (from the property statements) ----
 // a range is valid iff it is non-empty and does not run past address 0xFFFF
@@ -110,7 +113,47 @@ impl AddressIterator {
 //@|            && final(self).current as int == (old(self).current as int + 1) % 65536,
 }
 
+impl<'a> RegisterIterator<'a> {
+    // established by parse_all: a valid range, exactly 2*count bytes
+    pub open spec fn wf(&self) -> bool {
+        self.range.wf() && self.pos <= self.range.count && self.bytes@.len() as int == 2 * self.range.count as int
+    }
+    // the k-th register of the payload, big-endian, at address start+k
+    pub open spec fn spec_item(&self, k: int) -> Indexed<u16> {
+        Indexed { index: (self.range.start as int + k) as u16, value: be16(self.bytes@, 2 * k) as u16 }
+    }
+    // all values, in order (what the handler / the caller of the client API receives)
+    pub open spec fn spec_values(&self) -> Seq<u16> { Seq::new(self.range.count as nat, |k: int| be16(self.bytes@, 2 * k) as u16) }
+
+// exact-length parse: the body must be exactly 2*count bytes [C01,C04]
+//@fn rodbus/src/types.rs | RegisterIterator<'a>::parse_all | tags=C01,C02,C04,C07
+//@|    requires old(cursor).wf(),
+//@|    ensures final(cursor).wf(),
+//@|        r is Ok <==> old(cursor).rest().len() == 2 * range.count as int,
+//@|        r is Ok ==> r->Ok_0.range == range && r->Ok_0.pos == 0 && r->Ok_0.bytes@ == old(cursor).rest() && (range.wf() ==> r->Ok_0.wf()),
+
+// (slice pattern `Some([high, low])` is outside the Verus subset: the body is decided by Kani, harness k_register_iterator_next
+//  [complete for every payload of 1..=125 registers and every position]; only the contract is used by Verus callers)
+//@fn rodbus/src/types.rs | Iterator for RegisterIterator<'a>::next | tags=C02,C04,C07 | sub=Self::Item=>Indexed<u16> | inherent | ext_body
+//@|    requires old(self).wf(),
+//@|    ensures
+//@|        final(self).wf(),
+//@|        final(self).bytes@ == old(self).bytes@, final(self).range == old(self).range,
+//@|        old(self).pos == old(self).range.count ==> r is None && final(self).pos == old(self).pos,
+//@|        old(self).pos < old(self).range.count ==> r == Some(old(self).spec_item(old(self).pos as int))
+//@|            && final(self).pos == old(self).pos + 1,
+}
+
 impl<'a> BitIterator<'a> {
+    pub open spec fn spec_values(&self) -> Seq<bool> { Seq::new(self.range.count as nat, |k: int| spec_bit(self.bytes@, k)) }
+
+// exact-length parse: the body must be exactly ceil(count/8) bytes [C01,C04]
+//@fn rodbus/src/types.rs | BitIterator<'a>::parse_all | tags=C01,C02,C04,C07
+//@|    requires old(cursor).wf(),
+//@|    ensures final(cursor).wf(),
+//@|        r is Ok <==> old(cursor).rest().len() == (range.count as int + 7) / 8,
+//@|        r is Ok ==> r->Ok_0.range == range && r->Ok_0.pos == 0 && r->Ok_0.bytes@ == old(cursor).rest() && (range.wf() ==> r->Ok_0.wf()),
+
     // established by parse_all: a valid range, exactly ceil(count/8) bytes
     pub open spec fn wf(&self) -> bool {
         self.range.wf() && self.pos <= self.range.count
